@@ -464,7 +464,7 @@ def execute(sc, ctx) -> None:
 
 def compare_stats(got, want, name, mk) -> None:
     n = want["count"]
-    if not np.all(got["count"] == n):
+    if not np.all(np.asarray(got["count"]).astype(np.float64) == float(n)):
         raise mk("count", f"count {got['count'].tolist()} != {n}")
     for k in ("min", "max"):
         if not np.array_equal(got[k].astype(np.float64), want[k]):
